@@ -13,9 +13,13 @@ def run(ctx):
     ctx.rule("R-WAKE", "a new/immediate deadline wakes the job thread", floor=10)
     ctx.rule("R-WAKEUP-MIN", "the job pass keeps the earliest session deadline as its next wake-up (timeouts are served on time)", floor=8)
     ctx.rule("R-REFUSE", "the pair / pool becomes usable again: refusal condition is exactly busy / exhausted", floor=5)
+    ctx.rule("R-WAKEUP-COVER", "a deadline set by a job pass reaches that pass's next wake-up, so the timeout is noticed when it expires", floor=6)
+    ctx.rule("R-FINISH-NOW", "acknowledged / aborted send sessions are due for removal immediately (pair usable again)", floor=3)
+    ctx.rule("R-BAM-FRESH", "a new broadcast announcement never inherits the data of an unfinished one (no mixed message)", floor=2)
     for fd in (False, True):
         L = T.Layer(ctx, fd=fd)
         S.deliver_guard(ctx, L)
+        S.bam_fresh(ctx, L)
         TM.timeout_const(ctx, L)
         TM.deadline_finite(ctx, L)
         TM.expiry_shape(ctx, L)
@@ -23,4 +27,6 @@ def run(ctx):
         TM.wake(ctx, L)
         T.refuse(ctx, L)
         TM.wakeup_min(ctx, L.job, tag=L.tag + " ")
+        TM.wakeup_cover(ctx, L)
+        TM.finish_now(ctx, L)
     return "loss/timeout clauses of C06 decided on both data link layers"
